@@ -56,7 +56,41 @@ theorem closeSend_spec (c : Chan) (hw : WFs c) :
     exact ⟨⟨rfl, rfl, rfl, rfl, rfl, rfl, rfl, rfl, rfl, rfl, rfl⟩, rfl, rfl, hs', hop, by simp [LinkOK, sStage, hs'],
       by simp [dataOf], by simp [adjustSum], ⟨by simp [hop, hs'], fun _ => rfl⟩⟩
 
-structure DiscardSpec (c c' : Chan) (os : List Out) : Prop where
+/-- the credit `_discard_recv` sends for the buffer it throws away (fix ae15f0e): WINDOW_ADJUST only, only while the
+    channel may still send, and exactly the bytes buffered -/
+theorem discardCredit_spec (c : Chan) :
+    allAdjust (discardCredit c) ∧ (discardCredit c ≠ [] → c.sendChanOpen = true) ∧
+    adjustSum (discardCredit c) ≤ bufBytes c.recvBuf ∧
+    (c.sendChanOpen = true → adjustSum (discardCredit c) = bufBytes c.recvBuf) := by
+  unfold discardCredit sendPkt
+  by_cases hb : bufBytes c.recvBuf = 0
+  · simp [hb, allAdjust, adjustSum]
+  · cases ho : c.sendChanOpen <;> simp [hb, ho, allAdjust, adjustSum]
+
+theorem dataOf_sendPkt_adjust (c : Chan) (n : Nat) : dataOf (sendPkt c (.adjust n)) = [] := by
+  unfold sendPkt; split <;> rfl
+
+theorem not_mem_sendPkt_adjust (c : Chan) (n : Nat) {m : Msg} (h : ∀ k, m ≠ .adjust k) :
+    m ∉ sendPkt c (.adjust n) := by
+  unfold sendPkt
+  split
+  · intro hm; simp only [List.mem_singleton] at hm; exact h n hm
+  · simp
+
+theorem dataOf_discardCredit (c : Chan) : dataOf (discardCredit c) = [] :=
+  allAdjust_dataOf _ (discardCredit_spec c).1
+
+theorem not_mem_discardCredit (c : Chan) {m : Msg} (h : ∀ k, m ≠ .adjust k) : m ∉ discardCredit c := by
+  unfold discardCredit
+  split
+  · exact not_mem_sendPkt_adjust c _ h
+  · simp
+
+theorem discardRecv_msgs (c : Chan) : (discardRecv c).2.1 = discardCredit c := by
+  unfold discardRecv; simp only; split <;> rfl
+
+structure DiscardSpec (c c' : Chan) (ms : List Msg) (os : List Out) : Prop where
+  msgs : ms = discardCredit c
   cfg : SameCfg c c'
   sendState : c'.sendState = c.sendState
   sendChanOpen : c'.sendChanOpen = c.sendChanOpen
@@ -69,14 +103,14 @@ structure DiscardSpec (c c' : Chan) (os : List Out) : Prop where
   fired : os = [.lost] ∧ c.recvState = .closePending ∧ c'.recvState = .closed ∨
           os = [] ∧ c.recvState ≠ .closePending ∧ c'.recvState = c.recvState
 
-theorem discardRecv_spec (c : Chan) : DiscardSpec c (discardRecv c).1 (discardRecv c).2 := by
+theorem discardRecv_spec (c : Chan) : DiscardSpec c (discardRecv c).1 (discardRecv c).2.1 (discardRecv c).2.2 := by
   unfold discardRecv
   simp only
   split
   · rename_i hs
-    exact ⟨⟨rfl, rfl, rfl, rfl, rfl⟩, rfl, rfl, rfl, rfl, rfl, rfl, rfl, rfl, Or.inl ⟨rfl, hs, rfl⟩⟩
+    exact ⟨rfl, ⟨rfl, rfl, rfl, rfl, rfl⟩, rfl, rfl, rfl, rfl, rfl, rfl, rfl, rfl, Or.inl ⟨rfl, hs, rfl⟩⟩
   · rename_i hs
-    exact ⟨⟨rfl, rfl, rfl, rfl, rfl⟩, rfl, rfl, rfl, rfl, rfl, rfl, rfl, rfl, Or.inr ⟨rfl, hs, rfl⟩⟩
+    exact ⟨rfl, ⟨rfl, rfl, rfl, rfl, rfl⟩, rfl, rfl, rfl, rfl, rfl, rfl, rfl, rfl, Or.inr ⟨rfl, hs, rfl⟩⟩
 
 /-! ### inversion of `step` per event -/
 
@@ -111,28 +145,24 @@ theorem step_writeEof_ok {c c' : Chan} {ms : List Msg} {os : List Out}
 
 theorem step_close_ok {c c' : Chan} {ms : List Msg} {os : List Out}
     (h : step c .close = .ok (c', ms, os)) :
-    ∃ c1, ((c.sendState ≠ .closePending ∧ c.sendState ≠ .closed ∧
-            flushSend { c with sendEofPending := decide (c.sendState = .eofPending), sendState := .closePending } = some (c1, ms)) ∨
-           ((c.sendState = .closePending ∨ c.sendState = .closed) ∧ c1 = c ∧ ms = [])) ∧
-          ((c1.recvState ≠ .closed ∧ c' = (discardRecv c1).1 ∧ os = (discardRecv c1).2) ∨
-           (c1.recvState = .closed ∧ c' = c1 ∧ os = [])) := by
+    ∃ c1 ms1, ((c.sendState ≠ .closePending ∧ c.sendState ≠ .closed ∧
+            flushSend { c with sendEofPending := decide (c.sendState = .eofPending), sendState := .closePending } = some (c1, ms1)) ∨
+           ((c.sendState = .closePending ∨ c.sendState = .closed) ∧ c1 = c ∧ ms1 = [])) ∧
+          ((c1.recvState ≠ .closed ∧ c' = (discardRecv c1).1 ∧ ms = ms1 ++ (discardRecv c1).2.1 ∧
+              os = (discardRecv c1).2.2) ∨
+           (c1.recvState = .closed ∧ c' = c1 ∧ ms = ms1 ∧ os = [])) := by
   simp only [step] at h
   split at h
   · simp at h
   · rename_i c1 ms1 h1
-    refine ⟨c1, ?_, ?_⟩
+    refine ⟨c1, ms1, ?_, ?_⟩
     · split at h1
       · rename_i hc
-        have : ms1 = ms := by
-          split at h <;> (simp only [Except.ok.injEq, Prod.mk.injEq] at h; exact h.2.1)
-        subst this
         exact Or.inl ⟨hc.1, hc.2, h1⟩
       · rename_i hc
         simp only [Option.some.injEq, Prod.mk.injEq] at h1
         obtain ⟨rfl, rfl⟩ := h1
-        have : ms = [] := by
-          split at h <;> (simp only [Except.ok.injEq, Prod.mk.injEq] at h; exact h.2.1.symm)
-        refine Or.inr ⟨?_, rfl, this⟩
+        refine Or.inr ⟨?_, rfl, rfl⟩
         by_cases h1 : c.sendState = .closePending
         · exact Or.inl h1
         · by_cases h2 : c.sendState = .closed
@@ -141,12 +171,12 @@ theorem step_close_ok {c c' : Chan} {ms : List Msg} {os : List Out}
     · split at h
       · rename_i hr
         simp only [Except.ok.injEq, Prod.mk.injEq] at h
-        obtain ⟨rfl, _, rfl⟩ := h
-        exact Or.inl ⟨hr, rfl, rfl⟩
+        obtain ⟨rfl, rfl, rfl⟩ := h
+        exact Or.inl ⟨hr, rfl, rfl, rfl⟩
       · rename_i hr
         simp only [Except.ok.injEq, Prod.mk.injEq] at h
-        obtain ⟨rfl, _, rfl⟩ := h
-        exact Or.inr ⟨by simpa using hr, rfl, rfl⟩
+        obtain ⟨rfl, rfl, rfl⟩ := h
+        exact Or.inr ⟨by simpa using hr, rfl, rfl, rfl⟩
 
 theorem step_resume_ok {c c' : Chan} {ms : List Msg} {os : List Out}
     (h : step c .resume = .ok (c', ms, os)) :
@@ -257,7 +287,8 @@ theorem WF.of_flushRecv {c c' : Chan} {ms : List Msg} {os : List Out} (sp : Flus
 
 theorem acceptData_cases (c : Chan) (bs : Bytes) (dt : DType) :
     (bs = [] ∧ acceptData c bs dt = (c, [], [])) ∨
-    (bs ≠ [] ∧ (c.sendState = .closePending ∨ c.sendState = .closed) ∧ acceptData c bs dt = (c, [], [])) ∨
+    (bs ≠ [] ∧ (c.sendState = .closePending ∨ c.sendState = .closed) ∧
+      acceptData c bs dt = (c, sendPkt c (.adjust bs.length), [])) ∨
     (bs ≠ [] ∧ ¬ (c.sendState = .closePending ∨ c.sendState = .closed) ∧ c.recvPaused ≠ .no ∧
       acceptData c bs dt = ({ c with recvBuf := c.recvBuf ++ [(bs, dt)] }, [], [])) ∨
     (bs ≠ [] ∧ ¬ (c.sendState = .closePending ∨ c.sendState = .closed) ∧ c.recvPaused = .no ∧
@@ -287,14 +318,14 @@ theorem step_wf (c c' : Chan) (ev : Ev) (ms : List Msg) (os : List Out) (hw : WF
     exact ⟨e.wfs, h7 hw.exit, h8 hw.pend, by rw [h4, h3]; exact hw.unpaused, by rw [h4, h2]; exact hw.closeP,
       by rw [h2, h3]; exact hw.closePB, by rw [h2, h3]; exact hw.closedR, by rw [h5, e.cfg.initWindow]; exact hw.half⟩
   | close =>
-    obtain ⟨c1, h1, h2⟩ := step_close_ok h
+    obtain ⟨c1, ms1, h1, h2⟩ := step_close_ok h
     have hw1 : WF c1 := by
       rcases h1 with ⟨hs1, hs2, h1⟩ | ⟨_, rfl, _⟩
       · have hw0 : WFs { c with sendEofPending := decide (c.sendState = .eofPending), sendState := .closePending } :=
           ⟨by simp only [ne_eq, reduceCtorEq, not_false_eq_true, iff_true]; exact hw.s.chanOpen.mpr hs2, by simp⟩
         exact hw.of_sendSpec (flushSend_spec _ _ _ hw0 h1) rfl rfl rfl rfl rfl
       · exact hw
-    rcases h2 with ⟨_, rfl, _⟩ | ⟨_, rfl, _⟩
+    rcases h2 with ⟨_, rfl, _, _⟩ | ⟨_, rfl, _, _⟩
     · have hss := discardRecv_spec c1
       refine ⟨⟨by rw [hss.sendChanOpen, hss.sendState]; exact hw1.s.chanOpen,
                by rw [hss.sendState, hss.sendBuf]; exact hw1.s.drained⟩,
@@ -400,18 +431,21 @@ structure StepSum (c : Chan) (ev : Ev) (c' : Chan) (ms : List Msg) (os : List Ou
   sendWindow : bufBytes (dataOf ms) + c'.sendWindow = c.sendWindow + evAdjust ev
   pktBound : ∀ dt bs, Msg.data dt bs ∈ ms → bs.length ≤ c.sendPktsize
   recvStream : tag (dataOuts os) ++ tag c'.recvBuf = evRecvTag ev c
-  winGe : c'.recvWindow + bufBytes (dataOuts os) ≥ c.recvWindow + adjustSum ms
-  winEq : c'.sendChanOpen = true → c'.recvWindow + bufBytes (dataOuts os) = c.recvWindow + adjustSum ms
+  winGe : c'.recvWindow + bufBytes (dataOuts os) + evCredit ev c ≥ c.recvWindow + adjustSum ms
+  winEq : c'.sendChanOpen = true →
+    c'.recvWindow + bufBytes (dataOuts os) + evCredit ev c = c.recvWindow + adjustSum ms
   openMono : c'.sendChanOpen = true → c.sendChanOpen = true
 
 theorem StepSum.of_eff {c c0 c' : Chan} {ev : Ev} {ms : List Msg} {os : List Out} (e : Eff c0 c' ms os)
     (h1 : SameCfg c c0) (h2 : sStage c0 = sStage c) (h3 : rStage c0 = evStage ev (rStage c))
     (h4 : tag c0.sendBuf = evSendTag ev c) (h5 : c0.sendWindow = c.sendWindow + evAdjust ev)
     (h6 : tag c0.recvBuf = evRecvTag ev c) (h7 : c0.recvWindow = c.recvWindow)
-    (h8 : c0.sendChanOpen = c.sendChanOpen) : StepSum c ev c' ms os :=
+    (h8 : c0.sendChanOpen = c.sendChanOpen) (h9 : evCredit ev c = 0 := by rfl) : StepSum c ev c' ms os :=
   ⟨h1.trans e.cfg, h2 ▸ e.path, e.rstage.trans h3, e.sendStream.trans h4, e.sendWindow.trans h5,
-   fun dt bs hm => h1.sendPktsize ▸ e.pktBound dt bs hm, e.recvStream.trans h6, h7 ▸ e.winGe,
-   fun hop => h7 ▸ e.winEq hop, fun hop => h8 ▸ e.openMono hop⟩
+   fun dt bs hm => h1.sendPktsize ▸ e.pktBound dt bs hm, e.recvStream.trans h6,
+   by rw [h9]; have := e.winGe; rw [h7] at this; simpa using this,
+   fun hop => by rw [h9]; have := e.winEq hop; rw [h7] at this; simpa using this,
+   fun hop => h8 ▸ e.openMono hop⟩
 
 theorem flushSend_nil (c : Chan) (h : c.sendBuf = []) :
     flushSend c = some ((flushTail c).1, (flushTail c).2) := by
@@ -436,12 +470,12 @@ theorem step_sum (c c' : Chan) (ev : Ev) (ms : List Msg) (os : List Out) (hw : W
     obtain ⟨e, _⟩ := writeEof_spec _ _ _ hw.s h1
     exact StepSum.of_eff e (SameCfg.refl c) rfl rfl rfl rfl rfl rfl rfl
   | close =>
-    obtain ⟨c1, h1, h2⟩ := step_close_ok h
+    obtain ⟨c1, ms1, h1, h2⟩ := step_close_ok h
     -- the send half
-    have hsend : SameRecv c c1 ∧ LinkOK (sStage c) (sStage c1) ms ∧ tag (dataOf ms) ++ tag c1.sendBuf = tag c.sendBuf ∧
-        bufBytes (dataOf ms) + c1.sendWindow = c.sendWindow ∧
-        (∀ dt bs, Msg.data dt bs ∈ ms → bs.length ≤ c.sendPktsize) ∧ adjustSum ms = 0 ∧
-        (c1.sendChanOpen = true → c.sendChanOpen = true) := by
+    have hsend : SameRecv c c1 ∧ LinkOK (sStage c) (sStage c1) ms1 ∧ tag (dataOf ms1) ++ tag c1.sendBuf = tag c.sendBuf ∧
+        bufBytes (dataOf ms1) + c1.sendWindow = c.sendWindow ∧
+        (∀ dt bs, Msg.data dt bs ∈ ms1 → bs.length ≤ c.sendPktsize) ∧ adjustSum ms1 = 0 ∧
+        (c1.sendChanOpen = true → c.sendChanOpen = true) ∧ WFs c1 := by
       rcases h1 with ⟨hs1, hs2, h1⟩ | ⟨_, hc1, hm1⟩
       · have hop : c.sendChanOpen = true := hw.s.chanOpen.mpr hs2
         have hw0 : WFs { c with sendEofPending := decide (c.sendState = .eofPending), sendState := .closePending } :=
@@ -450,7 +484,7 @@ theorem step_sum (c c' : Chan) (ev : Ev) (ms : List Msg) (os : List Out) (hw : W
         refine ⟨⟨sp.same.initWindow, sp.same.readTypes, sp.same.writeTypes, sp.same.eofKeep, sp.same.sendPktsize,
           sp.same.recvState, sp.same.recvWindow, sp.same.recvPaused, sp.same.recvBuf, sp.same.pauseAfter,
           sp.same.recvEofPending⟩,
-          ?_, sp.stream, sp.window, sp.pktBound, sp.noAdjust, fun _ => hop⟩
+          ?_, sp.stream, sp.window, sp.pktBound, sp.noAdjust, fun _ => hop, sp.wf⟩
         by_cases he : c.sendState = .eof
         · have hb : c.sendBuf = [] := hw.s.drained (Or.inl he)
           rw [flushSend_nil _ (by exact hb)] at h1
@@ -463,33 +497,50 @@ theorem step_sum (c c' : Chan) (ev : Ev) (ms : List Msg) (os : List Out) (hw : W
             cases hs : c.sendState <;> simp_all
           rw [this]; exact sp.path
       · rw [hc1, hm1]
-        exact ⟨SameRecv.refl c, by simp [LinkOK], by simp [dataOf], by simp [dataOf, bufBytes], by simp, rfl, id⟩
-    obtain ⟨hsr, hpath, hstr, hwin, hpb, hadj, hom⟩ := hsend
-    rcases h2 with ⟨hr, rfl, rfl⟩ | ⟨hr, hc', ho'⟩
+        exact ⟨SameRecv.refl c, by simp [LinkOK], by simp [dataOf], by simp [dataOf, bufBytes], by simp, rfl, id, hw.s⟩
+    obtain ⟨hsr, hpath, hstr, hwin, hpb, hadj, hom, hwfs1⟩ := hsend
+    rcases h2 with ⟨hr, rfl, rfl, rfl⟩ | ⟨hr, hc', hm', ho'⟩
     · have hss := discardRecv_spec c1
+      obtain ⟨hca, hcs, hcle, hceq⟩ := discardCredit_spec c1
+      have hmsg : (discardRecv c1).2.1 = discardCredit c1 := hss.msgs
       have hb := hss.recvBuf
       have hwn := hss.recvWindow
-      have hos : dataOuts (discardRecv c1).2 = [] := by
+      have hos : dataOuts (discardRecv c1).2.2 = [] := by
         rcases hss.fired with ⟨h3, _⟩ | ⟨h3, _⟩ <;> (rw [h3]; rfl)
-      refine ⟨hsr.cfg.trans hss.cfg, ?_, ?_, ?_, ?_, hpb, ?_, ?_, ?_, ?_⟩
-      · have : sStage (discardRecv c1).1 = sStage c1 := by simp only [sStage, hss.sendState]
-        rw [this]; exact hpath
+      have hdc : dataOf (discardCredit c1) = [] := allAdjust_dataOf _ hca
+      have hst : sStage (discardRecv c1).1 = sStage c1 := by simp only [sStage, hss.sendState]
+      rw [hmsg]
+      refine ⟨hsr.cfg.trans hss.cfg, ?_, ?_, ?_, ?_, ?_, ?_, ?_, ?_, ?_⟩
+      · rw [hst]
+        exact LinkOK_append _ _ _ (sStage c1) _ hpath
+          (allAdjust_LinkOK _ _ hca (fun hne => sStage_le_of_open hwfs1 (hcs hne)))
       · simp only [evStage]
         rcases hss.fired with ⟨_, h3, h4⟩ | ⟨_, _, h4⟩
         · simp [rStage, h4, ← hsr.recvState, h3]
         · simp [rStage, h4, hsr.recvState]
-      · rw [hss.sendBuf]; exact hstr
-      · rw [hss.sendWindow]; simpa [evAdjust] using hwin
+      · rw [dataOf_append, hdc, List.append_nil, hss.sendBuf]; exact hstr
+      · rw [dataOf_append, hdc, List.append_nil, hss.sendWindow]; simpa [evAdjust] using hwin
+      · intro dt bs hm
+        rcases List.mem_append.mp hm with hm | hm
+        · exact hpb dt bs hm
+        · exact absurd hm (dataOf_nil_not_mem _ hdc dt bs)
       · simp [hos, hb, evRecvTag]
-      · rw [hos, hwn, hsr.recvWindow, hadj]; simp [bufBytes]
-      · intro _; rw [hos, hwn, hsr.recvWindow, hadj]; simp [bufBytes]
+      · rw [hos, hwn, hsr.recvWindow, adjustSum_append, hadj]
+        simp only [evCredit, bufBytes]
+        rw [← hsr.recvBuf]; push_cast; omega
+      · intro hop
+        rw [hss.sendChanOpen] at hop
+        have := hceq hop
+        rw [hos, hwn, hsr.recvWindow, adjustSum_append, hadj]
+        simp only [evCredit, bufBytes]
+        rw [← hsr.recvBuf]; push_cast; omega
       · intro hop; rw [hss.sendChanOpen] at hop; exact hom hop
-    · rw [hc', ho']
-      have hb : c1.recvBuf = [] := by
-        rw [hsr.recvBuf]; exact hw.closedR (hsr.recvState ▸ hr)
+    · rw [hc', ho', hm']
+      have hb0 : c.recvBuf = [] := hw.closedR (hsr.recvState ▸ hr)
+      have hb : c1.recvBuf = [] := by rw [hsr.recvBuf]; exact hb0
       refine ⟨hsr.cfg, hpath, by simp [evStage, rStage, hsr.recvState], hstr, by simpa [evAdjust] using hwin, hpb,
-        by simp [dataOuts, hb, evRecvTag], by simp [dataOuts, bufBytes, hadj, hsr.recvWindow],
-        fun _ => by simp [dataOuts, bufBytes, hadj, hsr.recvWindow], hom⟩
+        by simp [dataOuts, hb, evRecvTag], by simp [dataOuts, bufBytes, hadj, hsr.recvWindow, evCredit, hb0],
+        fun _ => by simp [dataOuts, bufBytes, hadj, hsr.recvWindow, evCredit, hb0], hom⟩
   | pause =>
     obtain ⟨rfl, rfl, rfl⟩ := step_pause_ok h
     exact StepSum.of_eff (Eff.refl _ ⟨hw.s.chanOpen, hw.s.drained⟩) ⟨rfl, rfl, rfl, rfl, rfl⟩ rfl rfl rfl rfl rfl rfl rfl
@@ -514,13 +565,23 @@ theorem step_sum (c c' : Chan) (ev : Ev) (ms : List Msg) (os : List Out) (hw : W
       obtain ⟨hs, _, _, ha⟩ := step_recv_data_ok h
       rcases acceptData_cases c bs dt with ⟨hb, h1⟩ | ⟨_, hd, h1⟩ | ⟨_, hd, hp, h1⟩ | ⟨_, hd, hp, h1⟩
       · rw [h1] at ha; cases ha
-        refine StepSum.of_eff (Eff.refl c hw.s) (SameCfg.refl c) rfl rfl rfl rfl ?_ rfl rfl
+        refine StepSum.of_eff (Eff.refl c hw.s) (SameCfg.refl c) rfl rfl rfl rfl ?_ rfl rfl (by simp [evCredit, hb])
         simp only [evRecvTag, hb]; split <;> simp
-      · rw [h1] at ha; cases ha
-        exact StepSum.of_eff (Eff.refl c hw.s) (SameCfg.refl c) rfl rfl rfl rfl (by simp [evRecvTag, hd]) rfl rfl
+      · -- dropped after the local close(): nothing changes but the window it used is given back
+        rw [h1] at ha; cases ha
+        have hle : adjustSum (sendPkt c (.adjust bs.length)) ≤ bs.length := by
+          unfold sendPkt; split <;> simp [adjustSum]
+        have hdn : dataOf (sendPkt c (.adjust bs.length)) = [] := by
+          unfold sendPkt; split <;> simp [dataOf]
+        refine ⟨SameCfg.refl c, sendPkt_adjust_LinkOK c hw.s _, rfl, by simp [hdn, evSendTag],
+          by simp [hdn, bufBytes, evAdjust], fun dt' bs' hm => absurd hm (dataOf_nil_not_mem _ hdn dt' bs'),
+          by simp [dataOuts, evRecvTag, hd], ?_, ?_, id⟩
+        · simp only [evCredit, hd, if_true, dataOuts, bufBytes]; push_cast; omega
+        · intro hop
+          simp only [evCredit, hd, if_true, dataOuts, bufBytes, sendPkt, hop, adjustSum]; push_cast; omega
       · rw [h1] at ha; cases ha
         exact StepSum.of_eff (Eff.refl _ ⟨hw.s.chanOpen, hw.s.drained⟩) ⟨rfl, rfl, rfl, rfl, rfl⟩ rfl rfl rfl rfl
-          (by simp [evRecvTag, hd, tag_append]) rfl rfl
+          (by simp [evRecvTag, hd, tag_append]) rfl rfl (by simp [evCredit, hd])
       · rw [h1] at ha
         obtain ⟨sp, ho⟩ := deliverData_spec c bs dt
         rw [ha] at sp ho
@@ -535,9 +596,9 @@ theorem step_sum (c c' : Chan) (ev : Ev) (ms : List Msg) (os : List Out) (hw : W
         · intro dt' bs' hm
           exact absurd hm (dataOf_nil_not_mem ms (allAdjust_dataOf _ sp.adj) dt' bs')
         · simp [dataOuts, sp.recvBuf, hrb, evRecvTag, hd]
-        · simpa [dataOuts, bufBytes] using sp.winGe
+        · simpa [dataOuts, bufBytes, evCredit, hd] using sp.winGe
         · intro hop; rw [sp.same.sendChanOpen] at hop
-          simpa [dataOuts, bufBytes] using sp.winEq hop
+          simpa [dataOuts, bufBytes, evCredit, hd] using sp.winEq hop
         · intro hop; rw [sp.same.sendChanOpen] at hop; exact hop
     | adjust n =>
       obtain ⟨_, h1, rfl⟩ := step_recv_adjust_ok h
@@ -578,12 +639,12 @@ theorem step_sum (c c' : Chan) (ev : Ev) (ms : List Msg) (os : List Out) (hw : W
       · have := e.winGe
         simp only at this
         rw [hsr.recvWindow] at this
-        rw [adjustSum_append, ha0]; simpa using this
+        rw [adjustSum_append, ha0]; simpa [evCredit] using this
       · intro hop
         have := e.winEq hop
         simp only at this
         rw [hsr.recvWindow] at this
-        rw [adjustSum_append, ha0]; simpa using this
+        rw [adjustSum_append, ha0]; simpa [evCredit] using this
       · intro hop
         have := e.openMono hop
         simp only at this
